@@ -27,6 +27,58 @@ RESIDUAL = {
 }
 
 
+# std functions that panic on a precondition the type system does not carry (none of them occurs in the tree today;
+# each use in parser-reachable code is reported with its precondition -- there is no discharge class for them yet)
+PANICKY_STD = {
+    ("String", "truncate"): "the new length must lie on a char boundary",
+    ("String", "insert"): "the index must lie on a char boundary",
+    ("String", "insert_str"): "the index must lie on a char boundary",
+    ("String", "remove"): "the index must lie on a char boundary inside the string",
+    ("String", "split_off"): "the index must lie on a char boundary",
+    ("String", "drain"): "the range must lie on char boundaries",
+    ("String", "replace_range"): "the range must lie on char boundaries",
+    ("Vec", "remove"): "the index must be in bounds",
+    ("Vec", "insert"): "the index must be at most len",
+    ("Vec", "swap_remove"): "the index must be in bounds",
+    ("Vec", "split_off"): "the index must be at most len",
+    ("Vec", "drain"): "the range must be in bounds",
+    ("slice", "copy_from_slice"): "both slices must have the same length",
+    ("slice", "clone_from_slice"): "both slices must have the same length",
+    ("slice", "swap"): "both indices must be in bounds",
+    ("slice", "rotate_left"): "the amount must be at most len",
+    ("slice", "rotate_right"): "the amount must be at most len",
+    ("slice", "chunks"): "the chunk size must not be 0",
+    ("slice", "chunks_exact"): "the chunk size must not be 0",
+    ("slice", "windows"): "the window size must not be 0",
+    ("str", "split_at"): "the index must lie on a char boundary",
+    ("RefCell", "borrow_mut"): "the cell must not be borrowed",
+    ("RefCell", "borrow"): "the cell must not be mutably borrowed",
+    ("Iterator", "step_by"): "the step must not be 0",
+}
+
+
+def panicky_std(cn):
+    m = cn.rsplit("::", 1)[-1]
+    for (ty, meth), why in PANICKY_STD.items():
+        if m != meth:
+            continue
+        if ty == "String" and cn.startswith("alloc::string::String::"):
+            return ty, meth, why
+        if ty == "Vec" and cn.startswith("alloc::vec::Vec::"):
+            return ty, meth, why
+        if ty == "slice" and cn.startswith("core::slice::") and "iter" not in cn:
+            return ty, meth, why
+        if ty == "str" and cn.startswith("core::str::"):
+            return ty, meth, why
+        if ty == "RefCell" and cn.startswith("core::cell::RefCell::"):
+            return ty, meth, why
+        if ty == "Iterator" and cn.endswith("Iterator::step_by"):
+            return ty, meth, why
+    if cn.startswith("core::str::traits::") and m in ("index", "index_mut"):
+        return "str", "index", "the range must lie on char boundaries inside the string"
+    return None
+
+
 def sites(facts, in_scope):
     for fid, f in sorted(facts.fns.items()):
         if not in_scope(f):
@@ -41,6 +93,8 @@ def sites(facts, in_scope):
                 cn = norm(util.cname(t))
                 if cn in PANIC_CALLS:
                     yield f, bi, "panic", t
+                elif panicky_std(cn) is not None:
+                    yield f, bi, "std:%s::%s" % panicky_std(cn)[:2], t
                 elif cn in UNWRAPS:
                     yield f, bi, short(cn), t
                 elif cn in ADV and not norm(f.id).startswith("flussab::deferred_reader"):
@@ -407,6 +461,12 @@ def classify(facts, tn, f, bi, kind, t):
         if kind == "BoundsCheck":
             return "index-untainted", "array index is not a declared number (%s)" % sy.show(args[1])[:40]
         return "index-untainted", "index is not a declared number (%s)" % sy.show(args[1])[:60]
+    if kind.startswith("std:"):
+        ps = panicky_std(norm(util.cname(t)))
+        args = [sy.operand(a) for a in t["args"]]
+        if ps and ps[1] in ("chunks", "chunks_exact", "windows", "step_by") and len(args) > 1 and args[1][0] == "c" and args[1][1] > 0:
+            return "std-const-arg", "constant non-zero size"
+        return None, "%s::%s panics unless %s, and nothing here shows that it does (%s)" % (ps[0], ps[1], ps[2], " , ".join(sy.show(a)[:40] for a in args[1:]))
     return None, "unknown kind"
 
 
